@@ -743,6 +743,55 @@ func c12BBoxCurves(r *run.Run) {
 		})
 }
 
+// c12WidthQueries: the four ways of asking for an advance width in PDF units agree with each other for every
+// font matrix, also for CID-keyed fonts whose font dictionaries carry matrices of their own.
+func c12WidthQueries(r *run.Run) {
+	tops := []matrix.Matrix{{0.001, 0, 0, 0.001, 0, 0}, {0.0005, 0, 0, 0.001, 0, 0}, {0.001, 0, 0.0002, 0.001, 0, 0}, {0.001, 0.0002, 0.0003, 0.001, 0, 0}, {1, 0, 0, 1, 0, 0}}
+	fds := []matrix.Matrix{{1, 0, 0, 1, 0, 0}, {2, 0, 0, 2, 0, 0}, {0.5, 0, 0, 1, 0, 0}, {0.001, 0, 0, 0.001, 0, 0}, {1, 0.1, 0.2, 1, 0, 0}}
+	r.Explore(explore.Config{Name: "C12.width-queries"},
+		"simple and CID-keyed CFF fonts under 5 top-level font matrices (plain, condensed, sheared, general, identity) x 5 matrices of the font dictionaries (CID-keyed: identity, scaled, condensed, 0.001 with an identity top-level matrix, general): WidthsPDF()[i] * 1000 = GlyphWidthPDF(i) for every glyph, also through the cff.Font, and WidthsMapPDF()[name] = GlyphWidthPDF(i) for simple fonts",
+		func(c *explore.Ctx) {
+			kind := 1 + c.Choose(2, "outline kind")
+			f, _ := FontFromChoices(gen.FontOpts{NoMeta: true, Compact: true, NoLayout: true}, kind, 1)
+			f.FontMatrix = tops[c.Choose(len(tops), "font matrix")]
+			desc := fmt.Sprintf("%s, font matrix %v", gen.KindNames[kind], f.FontMatrix)
+			o := *f.Outlines.(*cff.Outlines)
+			if o.IsCIDKeyed() {
+				o.FontMatrices = append([]matrix.Matrix{}, o.FontMatrices...)
+				fd := fds[c.Choose(len(fds), "matrix of the font dictionaries")]
+				for i := range o.FontMatrices {
+					o.FontMatrices[i] = fd
+				}
+				f.Outlines = &o
+				desc += fmt.Sprintf(", font dictionaries %v", fd)
+			}
+			c.Sample(func() any { return desc })
+			c.Nontrivial()
+			wp := f.WidthsPDF()
+			wm := f.WidthsMapPDF()
+			cf := f.AsCFF()
+			c.Outcome(desc, wp)
+			for i := 0; i < f.NumGlyphs(); i++ {
+				g := f.GlyphWidthPDF(glyph.ID(i))
+				tol := 1e-9 * math.Max(1, math.Abs(g))
+				if math.Abs(wp[i]*1000-g) > tol {
+					c.Fail("C12.query", "WidthsPDF vs GlyphWidthPDF", "glyph %d (design width %v): WidthsPDF gives %v text space units, GlyphWidthPDF %v glyph space units; %s", i, f.GlyphWidth(glyph.ID(i)), wp[i], g, desc)
+					return
+				}
+				if g2 := cf.GlyphWidthPDF(glyph.ID(i)); math.Abs(g2-g) > tol {
+					c.Fail("C12.query", "cff GlyphWidthPDF", "glyph %d: cff.Font.GlyphWidthPDF gives %v, sfnt.Font.GlyphWidthPDF %v; %s", i, g2, g, desc)
+					return
+				}
+				if wm != nil {
+					if w, ok := wm[f.GlyphName(glyph.ID(i))]; !ok || math.Abs(w-g) > tol {
+						c.Fail("C12.query", "WidthsMapPDF", "glyph %d: WidthsMapPDF gives %v (present %v), GlyphWidthPDF %v; %s", i, w, ok, g, desc)
+						return
+					}
+				}
+			}
+		})
+}
+
 func isCID(f *sfnt.Font) bool {
 	o, ok := f.Outlines.(interface{ IsCIDKeyed() bool })
 	return ok && o.IsCIDKeyed()
@@ -850,6 +899,7 @@ func init() {
 		c12HmtxScaled(r)
 		c12Derived(r)
 		c12BBoxQuadrants(r)
+		c12WidthQueries(r)
 		c12BBoxCurves(r)
 		c12FontTimes(r)
 	})
